@@ -31,6 +31,8 @@ VARIANTS = [
     dict(name='full', leaks=True, controls=True, rules=True, quality=True, vertices=True),
     dict(name='no-controls', leaks=True, controls=False, rules=False, quality=True, vertices=True),
     dict(name='simple-controls', leaks=False, controls=True, rules=False, quality=False, vertices=False),
+    dict(name='clock-noon-midnight', leaks=False, controls=True, rules=True, quality=False, vertices=False, clock_thresholds=(12 * 3600 + 45 * 60, 15 * 60)),
+    dict(name='clock-midnight-noon', leaks=False, controls=True, rules=True, quality=False, vertices=False, clock_thresholds=(0, 12 * 3600)),
     dict(name='or-of-and', leaks=False, controls=True, rules=True, quality=False, vertices=False, or_of_and=True),
 ]
 
